@@ -20,6 +20,9 @@ def aggregate_use_numba_decorators : List String := []
 /-- the signature of dataiter/aggregate.py: use_numba: parameters in order, with the source text of their defaults -/
 def aggregate_use_numba_signature : List String := ["x"]
 
+/-- the calls of dataiter/aggregate.py: use_numba in the order Python makes them along the source text -/
+def aggregate_use_numba_call_order : List String := ["np.issubdtype", "np.issubdtype", "np.issubdtype", "np.issubdtype", "np.issubdtype"]
+
 /-- dataiter/aggregate.py: quantile_apply (sha256 of the function source: 11777b98628a675b) -/
 def agg_quantile_apply_py (truth : Term → Bool) : Out :=
   let eff0 : Term := (Term.app "for" [(Term.sym "xg"), (Term.app "yield_groups" [(Term.sym "x"), (Term.sym "group"), (Term.sym "drop_na")]), (Term.app "block" [(Term.app "yield" [(Term.app "ifexp" [(Term.app "GtE" [(Term.app "len" [(Term.sym "xg")]), (Term.int (1 : Int))]), (Term.app "np.quantile" [(Term.sym "xg"), (Term.sym "q")]), (Term.sym "np.nan")])])])]);
@@ -30,6 +33,9 @@ def agg_quantile_apply_py_decorators : List String := ["deco.listify"]
 
 /-- the signature of dataiter/aggregate.py: quantile_apply: parameters in order, with the source text of their defaults -/
 def agg_quantile_apply_py_signature : List String := ["x", "group", "q", "drop_na"]
+
+/-- the calls of dataiter/aggregate.py: quantile_apply in the order Python makes them along the source text -/
+def agg_quantile_apply_py_call_order : List String := ["yield_groups", "len", "np.quantile"]
 
 /-- dataiter/aggregate.py: count_unique_apply (sha256 of the function source: 514fa83708f1df5c) -/
 def agg_count_unique_apply_py (truth : Term → Bool) : Out :=
@@ -42,6 +48,9 @@ def agg_count_unique_apply_py_decorators : List String := ["deco.listify"]
 /-- the signature of dataiter/aggregate.py: count_unique_apply: parameters in order, with the source text of their defaults -/
 def agg_count_unique_apply_py_signature : List String := ["x", "group", "drop_na"]
 
+/-- the calls of dataiter/aggregate.py: count_unique_apply in the order Python makes them along the source text -/
+def agg_count_unique_apply_py_call_order : List String := ["yield_groups", "set", "len"]
+
 /-- dataiter/aggregate.py: generic (sha256 of the function source: 4b30718266dcdd31) -/
 def agg_generic_py (truth : Term → Bool) : Out :=
   let aggregate' : Term := (Term.app "local-def" [(Term.app "def" [(Term.app "decorator" [(Term.sym "deco.listify")]), (Term.sym "aggregate"), (Term.app "params" [(Term.sym "x"), (Term.sym "group"), (Term.sym "drop_na"), (Term.sym "default"), (Term.sym "nrequired")]), (Term.app "block" [(Term.app "for" [(Term.sym "xg"), (Term.app "yield_groups" [(Term.sym "x"), (Term.sym "group"), (Term.sym "drop_na")]), (Term.app "block" [(Term.app "yield" [(Term.app "ifexp" [(Term.app "GtE" [(Term.app "len" [(Term.sym "xg")]), (Term.sym "nrequired")]), (Term.app "function" [(Term.sym "xg"), (Term.app "=**" [(Term.sym "kwargs")])]), (Term.sym "default")])])])])])])]);
@@ -52,6 +61,9 @@ def agg_generic_py_decorators : List String := ["functools.lru_cache(256)"]
 
 /-- the signature of dataiter/aggregate.py: generic: parameters in order, with the source text of their defaults -/
 def agg_generic_py_signature : List String := ["function", "**kwargs"]
+
+/-- the calls of dataiter/aggregate.py: generic in the order Python makes them along the source text -/
+def agg_generic_py_call_order : List String := []
 
 /-- dataiter/aggregate.py: yield_groups (sha256 of the function source: 296f16195c376f16) -/
 def agg_yield_groups_py (truth : Term → Bool) : Out :=
@@ -67,6 +79,9 @@ def agg_yield_groups_py_decorators : List String := []
 
 /-- the signature of dataiter/aggregate.py: yield_groups: parameters in order, with the source text of their defaults -/
 def agg_yield_groups_py_signature : List String := ["x", "group", "drop_na"]
+
+/-- the calls of dataiter/aggregate.py: yield_groups in the order Python makes them along the source text -/
+def agg_yield_groups_py_call_order : List String := ["len", "range", "xij.is_na"]
 
 /-- dataiter/aggregate.py: yield_groups_numba (sha256 of the function source: 43d0b2cde8766fa2) -/
 def agg_yield_groups_numba (truth : Term → Bool) : Out :=
@@ -84,6 +99,9 @@ def agg_yield_groups_numba_decorators : List String := ["njit(cache=dataiter.USE
 /-- the signature of dataiter/aggregate.py: yield_groups_numba: parameters in order, with the source text of their defaults -/
 def agg_yield_groups_numba_signature : List String := ["x", "group", "drop_na"]
 
+/-- the calls of dataiter/aggregate.py: yield_groups_numba in the order Python makes them along the source text -/
+def agg_yield_groups_numba_call_order : List String := ["len", "range", "is_na_numba", "out.append"]
+
 /-- dataiter/aggregate.py: generic_numba (sha256 of the function source: ea1e6bc5c95ae8d1) -/
 def agg_generic_numba (truth : Term → Bool) : Out :=
   let aggregate' : Term := (Term.app "local-def" [(Term.app "def" [(Term.app "decorator" [(Term.app "njit" [(Term.app "=cache" [(Term.sym "dataiter.USE_NUMBA_CACHE")])])]), (Term.sym "aggregate"), (Term.app "params" [(Term.sym "x"), (Term.sym "group"), (Term.sym "drop_na"), (Term.sym "default"), (Term.sym "nrequired")]), (Term.app "block" [(Term.app "assign" [(Term.sym "out"), (Term.app "list" [])]), (Term.app "for" [(Term.sym "xg"), (Term.app "yield_groups_numba" [(Term.sym "x"), (Term.sym "group"), (Term.sym "drop_na")]), (Term.app "block" [(Term.app ".append" [(Term.sym "out"), (Term.app "ifexp" [(Term.app "GtE" [(Term.app "len" [(Term.sym "xg")]), (Term.sym "nrequired")]), (Term.app "function" [(Term.sym "xg")]), (Term.sym "default")])])])]), (Term.app "return" [(Term.sym "out")])])])]);
@@ -94,6 +112,9 @@ def agg_generic_numba_decorators : List String := ["functools.lru_cache(256)"]
 
 /-- the signature of dataiter/aggregate.py: generic_numba: parameters in order, with the source text of their defaults -/
 def agg_generic_numba_signature : List String := ["function"]
+
+/-- the calls of dataiter/aggregate.py: generic_numba in the order Python makes them along the source text -/
+def agg_generic_numba_call_order : List String := []
 
 /-- dataiter/aggregate.py: nth_apply_numba (sha256 of the function source: e7bc68c7796fa963) -/
 def agg_nth_apply_numba (truth : Term → Bool) : Out :=
@@ -106,6 +127,9 @@ def agg_nth_apply_numba_decorators : List String := ["njit(cache=dataiter.USE_NU
 
 /-- the signature of dataiter/aggregate.py: nth_apply_numba: parameters in order, with the source text of their defaults -/
 def agg_nth_apply_numba_signature : List String := ["x", "group", "index", "drop_na"]
+
+/-- the calls of dataiter/aggregate.py: nth_apply_numba in the order Python makes them along the source text -/
+def agg_nth_apply_numba_call_order : List String := ["yield_groups_numba", "len", "len", "out.append", "out.append"]
 
 /-- dataiter/aggregate.py: mode_apply_numba (sha256 of the function source: 987e8b38f21ab8dd) -/
 def agg_mode_apply_numba (truth : Term → Bool) : Out :=
@@ -120,6 +144,9 @@ def agg_mode_apply_numba_decorators : List String := ["njit(cache=dataiter.USE_N
 /-- the signature of dataiter/aggregate.py: mode_apply_numba: parameters in order, with the source text of their defaults -/
 def agg_mode_apply_numba_signature : List String := ["x", "group", "drop_na"]
 
+/-- the calls of dataiter/aggregate.py: mode_apply_numba in the order Python makes them along the source text -/
+def agg_mode_apply_numba_call_order : List String := ["yield_groups_numba", "len", "len", "np.full", "len", "range", "len", "range", "np.argmax", "out.append", "out.append"]
+
 /-- dataiter/aggregate.py: count_unique_apply_numba (sha256 of the function source: b8460ddbdbf09f06) -/
 def agg_count_unique_apply_numba (truth : Term → Bool) : Out :=
   let out' : Term := (Term.app "list" []);
@@ -131,6 +158,9 @@ def agg_count_unique_apply_numba_decorators : List String := ["njit(cache=datait
 
 /-- the signature of dataiter/aggregate.py: count_unique_apply_numba: parameters in order, with the source text of their defaults -/
 def agg_count_unique_apply_numba_signature : List String := ["x", "group", "drop_na"]
+
+/-- the calls of dataiter/aggregate.py: count_unique_apply_numba in the order Python makes them along the source text -/
+def agg_count_unique_apply_numba_call_order : List String := ["yield_groups_numba", "np.unique", "len", "out.append"]
 
 /-- dataiter/aggregate.py: quantile_apply_numba (sha256 of the function source: 88f87ef1906a9386) -/
 def agg_quantile_apply_numba (truth : Term → Bool) : Out :=
@@ -144,6 +174,9 @@ def agg_quantile_apply_numba_decorators : List String := ["njit(cache=dataiter.U
 /-- the signature of dataiter/aggregate.py: quantile_apply_numba: parameters in order, with the source text of their defaults -/
 def agg_quantile_apply_numba_signature : List String := ["x", "group", "q", "drop_na"]
 
+/-- the calls of dataiter/aggregate.py: quantile_apply_numba in the order Python makes them along the source text -/
+def agg_quantile_apply_numba_call_order : List String := ["yield_groups_numba", "len", "np.quantile", "out.append"]
+
 /-- dataiter/aggregate.py: is_na_numba (sha256 of the function source: 950926df5f0cccb5) -/
 def agg_is_na_numba (truth : Term → Bool) : Out :=
   let na' : Term := (Term.app "np.full" [(Term.app "len" [(Term.sym "x")]), (Term.sym "False")]);
@@ -155,5 +188,8 @@ def agg_is_na_numba_decorators : List String := ["njit(cache=dataiter.USE_NUMBA_
 
 /-- the signature of dataiter/aggregate.py: is_na_numba: parameters in order, with the source text of their defaults -/
 def agg_is_na_numba_signature : List String := ["x"]
+
+/-- the calls of dataiter/aggregate.py: is_na_numba in the order Python makes them along the source text -/
+def agg_is_na_numba_call_order : List String := ["len", "np.full", "len", "range", "is_na_item_numba"]
 
 end DI.Gen
